@@ -35,13 +35,15 @@ def baseline_path(name):
     return os.path.join(BASE_DIR, name + ".json.gz")
 
 
-def load_baseline(name):
+def load_baseline(name, canon=None):
     p = baseline_path(name)
     if not os.path.exists(p):
         return None
     with gzip.open(p, "rt", encoding="utf-8") as f:
         d = json.load(f)
     sigs = d["signatures"]
+    if canon is not None:
+        sigs = [";".join(sorted({canon(a) for a in s.split(";")})) for s in sigs]
     cases = {}
     for key, si in d["cases"].items():
         cases[key] = sigs[si]
